@@ -528,7 +528,7 @@ pub fn c09(ctx: &mut Ctx) {
                         rec.map.insert(b"shrink".to_vec(), Item::S(vec![0x77; 30]));
                         rec.map.insert(b"pad".to_vec(), Item::S(vec![0xa5; pad]));
                         let pairs: Pairs = rec.map.iter().map(|(k, v)| (k.clone(), rlp::enc_item(v))).collect();
-                        let pred = predict(seq, &pairs, op, &ModelCtx { signer: &ms, nonsigner: &ms_other });
+                        let pred = predict(seq, &pairs, op, &ModelCtx { signer: &ms, nonsigner: &ms_other, alt: None });
                         let rs = record_size(&ms, pred.seq, &pred.pairs);
                         if rs == target {
                             found = Some(rec);
@@ -579,7 +579,7 @@ pub fn c09(ctx: &mut Ctx) {
                 let rec = Rec::minimal(key, seq);
                 let op = if len % 2 == 0 { Op::Insert(k("v"), Val::B(vec![0x21; len])) } else { Op::InsertRaw(k("v"), rlp::enc_str(&vec![0x21; len])) };
                 let pairs: Pairs = rec.map.iter().map(|(k, v)| (k.clone(), rlp::enc_item(v))).collect();
-                let pred = predict(seq, &pairs, &op, &ModelCtx { signer: &ms, nonsigner: &ms_other });
+                let pred = predict(seq, &pairs, &op, &ModelCtx { signer: &ms, nonsigner: &ms_other, alt: None });
                 let rs = record_size(&ms, pred.seq, &pred.pairs);
                 if !(280..=320).contains(&rs) {
                     continue;
